@@ -56,7 +56,7 @@ PROPS["C02"] = dict(
     rule=PAIR_RULE + "; implementation answers A.Intersects(B), B.Intersects(A) compared with the Coq model and with the arrangement oracle meets_x",
     trusted_base=COMMON_TB + ["the executable arrangement oracle coq/PairSpec.v (meets_x) as ground truth for polygon pairs: its completeness is not proved (polygonal Jordan curve theorem, DESIGN §9)"],
     assumptions=["float64 exact on D"],
-    partial=["ring x segment, ring x line string and ring x ring (polygons without holes) are proved exact as point sets and symmetric (Jordan.v, JordanQ.v, JordanRing.v); rect x line and rect x polygon-without-holes likewise (JordanRect.v); polygon WITH holes x line string of any length is proved exact under explicit hypotheses (each hole not flagged convex or really convex; holes inside the exterior and not overlapping: Holes.v; the 16-point bounding-box shortcut of ringContainsRing is proved sound in strict mode: HoleBox.v); the other pairs involving holes are explored against the oracle, not proved"],
+    partial=["ring x segment, ring x line string and ring x ring (polygons without holes) are proved exact as point sets and symmetric (Jordan.v, JordanQ.v, JordanRing.v); rect x line and rect x polygon-without-holes likewise (JordanRect.v); polygon WITH holes x line string of any length is proved exact under explicit hypotheses (each hole not flagged convex or really convex; holes inside the exterior and not overlapping: Holes.v; the 16-point bounding-box shortcut of ringContainsRing is proved sound in strict mode: HoleBox.v; strict containment of a ring of any size by a ring is exact: HoleRing.v); the other pairs involving holes are explored against the oracle, not proved"],
 )
 PROPS["C03"] = dict(
     translated_functions=['Rect.ContainsPoint', 'Rect.ContainsRect', 'Rect.IntersectsRect', 'Segment.Rect', 'Segment.IntersectsSegment', 'Segment.ContainsSegment', 'Segment.CollinearPoint', 'Point.ContainsPoint', 'Point.ContainsRect', 'Rect.ContainsLine', 'Rect.ContainsPoly', 'Point.ContainsLine', 'Point.ContainsPoly', 'Poly.ContainsRect'],
